@@ -374,9 +374,9 @@ def extra(tier, seed):
     import myokit.formats.cellml
 
     out = {"failures": [], "evaluations": 0, "nontrivial": [], "labels": {}, "samples": [], "coverage": {}}
-    files = ["/repo/tests/mmt_files/example.mmt", "/repo/tests/cellml_files/noble_1962.cellml"]
+    files = [B.REPO + "/tests/mmt_files/example.mmt", B.REPO + "/tests/cellml_files/noble_1962.cellml"]
     if tier == "thorough":
-        files.append("/repo/tests/cellml_files/ToRORd_dynCl_mid.cellml")
+        files.append(B.REPO + "/tests/cellml_files/ToRORd_dynCl_mid.cellml")
     for f in files:
         out["evaluations"] += 1
         try:
